@@ -55,6 +55,12 @@ func replay(sub string, raw json.RawMessage) ([]h.Failure, error) {
 		return runList(&hs), nil
 	case "program":
 		return replayProgram(raw)
+	case "find":
+		var c findCase
+		if err := json.Unmarshal(raw, &c); err != nil {
+			return nil, err
+		}
+		return checkFind(c), nil
 	}
 	return nil, fmt.Errorf("unknown sub-check %q", sub)
 }
